@@ -184,9 +184,16 @@ func buildQuery(o *Obligation, negate bool) string {
 	if o.Kind != "cover" {
 		b.WriteString(axiomsFor(body))
 	}
+	var lits []string
 	for _, l := range lines {
 		b.WriteString(l)
 		b.WriteString("\n")
+		if strings.HasPrefix(l, "(declare-const strlit_") {
+			lits = append(lits, strings.Fields(l)[1])
+		}
+	}
+	if len(lits) > 0 {
+		b.WriteString("(assert (distinct str_empty " + strings.Join(lits, " ") + "))\n")
 	}
 	if negate {
 		b.WriteString("(assert (not " + o.Goal.S + "))\n")
@@ -235,7 +242,7 @@ func cmdVerify(keys []string, tag string, timeoutMs int, verbose bool) int {
 		fmt.Println("MACHINERY:", e)
 	}
 	t0 := time.Now()
-	discharge(s.x.obls, runCfg{timeoutMs: timeoutMs, jobs: 16})
+	discharge(s.x.obls, runCfg{timeoutMs: timeoutMs, jobs: 7})
 	bad := 0
 	byName := map[string][]*Obligation{}
 	var order []string
